@@ -143,10 +143,40 @@ def gen_C07(rnd, n, tier):
         cfg = Cfg(fontdefault="F1", fonts=fonts, maxlen=rnd.choice([0, 0, 60]), deffont=rnd.choice(["", "", "F2"]))
         want = None
         out.append(Case(compile_line(cfg, src), src, cfg, {"params": form}))
+    # several format() calls under different fonts in one file (one font configuration object serves
+    # the whole parse): every text must be laid out with the widths of its own font
+    for i in range(max(20, n // 10)):
+        fonts = {}
+        for f in ("F1", "F2", "F3"):
+            widths = {"default": rnd.choice([0, 4, 6]), " ": rnd.choice([0, 3, 5])}
+            for ch in ALPH:
+                if rnd.random() < 0.6: widths[ch] = rnd.randint(0, 9)
+            for c in CODES: widths[c] = rnd.randint(0, 40)
+            fonts[f] = {"maxLineLength": rnd.choice([20, 35, 50, 80]), "numLines": rnd.choice([1, 2, 3]), "cursorOverlapWidth": rnd.choice([0, 5, 10]), "widths": widths}
+        multi = []; src = ""
+        shared = gen_fmt_text(rnd).replace("\n", " ")
+        for k in range(rnd.randint(2, 4)):
+            f = rnd.choice(["F1", "F2", "F3"]); text = shared if rnd.random() < 0.5 else gen_fmt_text(rnd).replace("\n", " ")
+            multi.append(("T%d" % k, text, f)); src += 'text T%d {\n  format("%s", "%s")\n}\n' % (k, text, f)
+        cfg = Cfg(fontdefault="F1", fonts=fonts)
+        out.append(Case(compile_line(cfg, src), src, cfg, {"multi": multi, "fonts": fonts}))
     return out
 
 def oracle_C07(case, res):
     m = case.meta
+    if "multi" in m:
+        if res["kind"] != "OK": return "valid format() texts rejected: %s" % res.get("msg")
+        from cases_data import text_blocks
+        texts, _ = text_blocks(res["text"])
+        for lab, text, f in m["multi"]:
+            got = texts.get(lab)
+            if not got: return "text %s missing from the output" % lab
+            outv = "\n".join(c for _, c in got)
+            if not outv.endswith("$"): return "text %s lost its terminator" % lab
+            fc = m["fonts"][f]
+            e = check_format(text, fc["maxLineLength"], fc["cursorOverlapWidth"], fc["numLines"], fc["widths"], outv[:-1])
+            if e: return "text %s (font %s): %s" % (lab, f, e)
+        return None
     if "text" not in m:
         if res["kind"] != "OK": return "valid format() parameters rejected: %s" % res.get("msg")
         return None
@@ -183,6 +213,19 @@ def gen_C17(rnd, n, tier):
     src2 = 'text T { poryswitch(V) { A: "x" } }\nscript S { poryswitch(W) { Q: a } }\n'
     c2 = base_cfg(switches={"V": "Q", "W": "1", "X": "2", "Y": "3"})
     base.append((Case(compile_line(c2, src2), src2, c2, {}), 4))
+    # independence: a file of statements without hoisted data compiles to the concatenation of what
+    # its statements compile to alone; user labels spelled like another script's generated labels
+    indep = []
+    for i in range(n):
+        tg = TopGen(rnd, tier, plain=True); tg.gen(rnd.randint(2, 4)); srcs = list(tg.srcs)
+        names = [it[1] for it in tg.items if it[0] == "script"]
+        if names and rnd.random() < 0.6:
+            other = rnd.choice(names); bait = "%s_%d" % (other, rnd.randint(1, 6))
+            srcs.insert(rnd.randint(0, len(srcs)), "script Bait%d {\n  lock\n%s:\n  release\n}\n" % (i, bait))
+        cfg = base_cfg(optimize=rnd.random() < 0.5)
+        whole = "\n".join(srcs)
+        indep.append(Case(compile_line(cfg, whole), whole, cfg, {"indep": i, "role": "whole"}))
+        for k, sp in enumerate(srcs): indep.append(Case(compile_line(cfg, sp), sp, cfg, {"indep": i, "role": k}))
     reps = 4 if tier == "quick" else 12
     seq = []
     for k in range(reps * 8):
@@ -190,14 +233,27 @@ def gen_C17(rnd, n, tier):
         rnd.shuffle(order)
         for j in order:
             c = base[j][0]; seq.append(Case(c.line, c.src, c.cfg, {"orig": j, "rep": k}))
-    return seq
+    return seq + indep
 
 def oracle_C17_all(cases, rawresults):
-    first = {}
+    from proto import decode_result
+    first = {}; groups = {}
     for c, r in zip(cases, rawresults):
+        if "indep" in c.meta:
+            groups.setdefault(c.meta["indep"], []).append((c, decode_result(r))); continue
         j = c.meta["orig"]
         if j not in first: first[j] = r
         elif first[j] != r: return (c, "compilation %d of the same input differs from the first one" % (c.meta["rep"] + 1))
+    for g, lst in groups.items():
+        whole = [x for x in lst if x[0].meta["role"] == "whole"][0]
+        parts = sorted([x for x in lst if x[0].meta["role"] != "whole"], key=lambda x: x[0].meta["role"])
+        if any(p[1]["kind"] != "OK" for p in parts):
+            if whole[1]["kind"] == "OK": return (whole[0], "a statement that is rejected alone is accepted next to other statements")
+            continue
+        if whole[1]["kind"] != "OK":
+            return (whole[0], "every statement compiles alone, but the file is rejected: %s" % whole[1].get("msg"))
+        if whole[1]["text"] != "\n".join(p[1]["text"] for p in parts):
+            return (whole[0], "the output of the file is not the concatenation of the outputs of its statements")
     return None
 
 # ---------------- C18 ----------------
@@ -252,6 +308,7 @@ def gen_C18(rnd, n, tier):
             elif kind == "brace": src = "script S { " + "if (flag(A)) { " * d + "x " + "} " * d + "}"
             elif kind == "not": src = "script S { if (" + "!(" * d + "flag(A)" + ")" * d + ") { a } }"
             else: src = "script S { foo(" + "(" * d + "1" + ")" * (d - rnd.randint(0, 1)) + ") }"
+        if rnd.random() < 0.15: src += rnd.choice([" # unfinished", "\n// TODO", " //", "\n#"])    # file ends inside a comment
         sw = rnd.choice([{}, {"V": "A"}, {"V": "B", "GAME": "RUBY"}])
         cfgn = repo_cfg(switches=sw, optimize=rnd.random() < 0.5, lm=rnd.random() < 0.5, path=rnd.choice(["", "f.pory"]),
                         deffont=rnd.choice(["", "", "1_latin_frlg", "NOPE"]))
@@ -284,7 +341,7 @@ def oracle_C18_pair(cn, rn, cl, rl):
 
 # ---------------- C19 ----------------
 IDENTS = ["foo", "é", "naïve_1", "_x", "script", "if", "TRUE", "value", "ünï"]
-NUMS = ["0", "7", "42", "-3", "0x1F", "007", "0x"]
+NUMS = ["0", "7", "42", "-3", "0x1F", "007", "0x", "0x1f", "0xdeadBEEF", "0xa"]
 PUNCT = ["(", ")", "{", "}", "[", "]", ",", ":", "*", "=", "==", "!=", "!", "<", "<=", ">", ">=", "&&", "||"]
 ILLEGAL = ["+", "€", "&", "|", "-", "@", "/"]
 STRS = ['"hi"', '"héllo wörld"', '""', '"a\\pb$"']
@@ -331,6 +388,7 @@ def render_lexemes(ls, r):
                 s += sp
         else:
             sp = sep(r, False)
+            if r.random() < 0.25: sp += r.choice(["# end", "//", "// c", " #", "\t//x"])    # a comment that ends the file without a newline
             if l[1].endswith("/") and sp.startswith("/"): sp = " " + sp
             s += sp
     return s, offs
@@ -383,6 +441,9 @@ def oracle_C19_group(cases, results):
             exp.append(o)
             if l[0] == "typed": exp.append(o + len(l[1][:l[1].index('"')].encode()))
         body = [t for t in toks if t["type"] != "EOF"]
+        for t in toks:
+            if t["type"] == "EOF" and t["line"] != b.count(b"\n") + 1:
+                return "EOF token on line %d, the input has %d lines (%r)" % (t["line"], b.count(b"\n") + 1, s)
         if len(body) != len(exp): return "token count %d, expected %d for %r" % (len(body), len(exp), s)
         for t, o in zip(body, exp):
             pre = b[:o]; ln = pre.count(b"\n") + 1; col = len(pre) - (pre.rfind(b"\n") + 1)
@@ -408,7 +469,7 @@ def gen_C20(rnd, n, tier):
     kinds = ["break_outside", "continue_outside", "continue_not_last", "dup_case", "two_defaults", "const_redef",
              "text_clash", "movement_clash", "label_clash", "label_text_clash", "continue_in_switch_only",
              "continue_after_loop_in_switch", "break_after_closed_loop", "continue_after_closed_loop",
-             "dup_case_const", "dup_case_const_rev", "dup_case_multi"]
+             "dup_case_const", "dup_case_const_rev", "dup_case_multi", "label_clash_forward", "continue_not_last_in_case"]
     for i in range(n):
         kind = kinds[i % len(kinds)]
         pre = p_block(plain_body(rnd), 1)      # statements before, inside script S
@@ -468,6 +529,17 @@ def gen_C20(rnd, n, tier):
         elif kind == "movement_clash":
             lines = head + ["movement S_Movement_0 {", "  walk_up", "}", "script S {"] + bl + ["  applymovement(1, moves(walk_down))", "}"]
             src = "\n".join(lines) + "\n"; line = len(head) + 1
+        elif kind == "label_clash_forward":
+            # the label copies the generated label of a part of the script that is emitted later
+            k = rnd.choice([1, 2]) if rnd.random() < 0.5 else rnd.choice([1, 2, 3])
+            tail = rnd.choice([["  if (flag(A)) {", "    a", "  }", "  b"], ["  while (flag(A)) {", "    a", "  }", "  b"]]) if k < 3 else ["  while (flag(A)) {", "    a", "  }", "  b"]
+            body = ["  first", "  S_%d:" % k, "  second"] + tail; line = len(head) + 1 + 2
+            src = assemble(head, body)
+        elif kind == "continue_not_last_in_case":
+            cs = rnd.choice(["    case 1:", "    default:"])
+            body = bl + ["  while (flag(L)) {", "    switch (var(V)) {", cs, "      continue", "      second", "    case 2:", "      c", "    }", "  }"]
+            line = len(head) + 1 + len(bl) + 4
+            src = assemble(head, body)
         elif kind == "label_clash":
             body = ["  if (flag(A)) {", "    a", "  }", "  S_1:", "  b"]; line = len(head) + 1 + 4
             src = assemble(head, body)
